@@ -7,6 +7,8 @@ import (
 	"encoding/json"
 	"errors"
 	"fmt"
+
+	cbor "github.com/fxamacker/cbor/v2"
 )
 
 // IClaimsBase defines an interface for working with all EAT-based claims
@@ -181,8 +183,9 @@ func DecodeClaimsFromCBOR(buf []byte) (IClaims, error) {
 		// claims decoding in UnmarshalCBOR() further down.
 		Profile string `cbor:"265,keyasint"`
 		// P1's own profile claim: profiles derived from P1 declare
-		// themselves here
-		PsaProfile string `cbor:"-75000,keyasint"`
+		// themselves here. For every other profile this is an unknown
+		// key, whose value may be anything.
+		PsaProfile cbor.RawMessage `cbor:"-75000,keyasint"`
 	}{}
 
 	err := dm.Unmarshal(buf, &selector)
@@ -198,8 +201,10 @@ func DecodeClaimsFromCBOR(buf []byte) (IClaims, error) {
 	}
 
 	name := selector.Profile
-	if name == "" {
-		name = selector.PsaProfile
+	viaPsaProfile := false
+	if name == "" && len(selector.PsaProfile) > 0 {
+		// only a text string can name a profile
+		viaPsaProfile = dm.Unmarshal(selector.PsaProfile, &name) == nil && name != ""
 	}
 
 	entry, ok := profilesRegister[name]
@@ -211,6 +216,14 @@ func DecodeClaimsFromCBOR(buf []byte) (IClaims, error) {
 
 	if err := dm.Unmarshal(buf, claims); err != nil {
 		return nil, err
+	}
+
+	// a profile selected through P1's profile claim must be one that reads
+	// that claim
+	if viaPsaProfile {
+		if p, err := claims.GetProfile(); err != nil || p != name {
+			return nil, fmt.Errorf("unknown profile: %q", name)
+		}
 	}
 
 	return claims, nil
